@@ -74,6 +74,7 @@ def classification : List (Site × Verdict) := [
   (("compiler/util.go", "upgradeValue", 1), .covered ``perm_invariant_rebuild ("object fields; " ++ insertOnly)),
   (("interpreter/module.go", "Interpreter.execModule", 0), .covered ``perm_invariant_rebuild ("scope additions → root scope; " ++ insertOnly)),
   (("interpreter/util.go", "Interpreter.callFunc", 0), .covered ``perm_invariant_rebuild ("evaluated arguments (a map built from the ordered argument list) → new scope; " ++ insertOnly)),
+  (("interpreter/value/cast.go", "deepCastRecursive", 0), .covered ``perm_invariant_sortByKey ("after the fix for V33: " ++ sortedFirst ++ " (before: the first failing field in map order was reported)")),
   (("interpreter/value/cast.go", "DeepCast", 0), .covered ``perm_invariant_sortByKey ("after the fix for V33: " ++ sortedFirst ++ " (before: the first failing field in map order was reported)")),
   (("interpreter/value/json.go", "marshalValue", 0), .covered ``perm_invariant_rebuild ("any-object fields → map for encoding/json (which sorts keys); " ++ insertOnly)),
   (("interpreter/value/json.go", "marshalValue", 1), .covered ``perm_invariant_rebuild ("object fields → map for encoding/json; " ++ insertOnly)),
